@@ -6,6 +6,7 @@ import dns.flags
 import dns.message
 import dns.name
 import dns.opcode
+import dns.rdata
 import dns.rdataclass
 import dns.rdatatype
 import dns.rrset
@@ -31,8 +32,8 @@ class View:
         self.sections = [[], [], [], []]
 
 
-def gen_rrset(rng, pool, types, origin, relative, big=False):
-    """returns (RRset, vals)"""
+def gen_rrset(rng, pool, types, origin, relative, big=False, rdclass=1):
+    """returns (RRset, vals).  rdclass other than IN: only class-independent types, built in that class"""
     t = rng.choice(types)
     owner = pool.name()
     vals = []
@@ -49,6 +50,10 @@ def gen_rrset(rng, pool, types, origin, relative, big=False):
             continue
         if v.rdclass != 1:
             continue
+        if rdclass != 1:
+            if not dns.rdata.get_rdata_class(rdclass, v.rdtype).__module__.startswith("dns.rdtypes.ANY."):
+                continue
+            v = GR.Val(rdclass, v.rdtype, v.tname, v.args, v.parts, v.tags)
         vals.append(v)
     if not vals:
         return None
@@ -106,12 +111,14 @@ def gen_message(rng, kind=None, size="small", tsig_ok=False):
     types = SMALL_TYPES if rng.random() < 0.6 else MSG_TYPES
     if kind == "update":
         zone = rng.choice(pool.suffixes[:-1])
-        m = dns.update.UpdateMessage(lname(zone), id=rng.randrange(65536))
+        zclass = rng.choice((1, 1, 3, 4))  # IN, CH, HS: delete/prerequisite forms carry the zone's class back
+        m = dns.update.UpdateMessage(lname(zone), rdclass=zclass, id=rng.randrange(65536))
+        info["zone_class"] = zclass
         n_ops = rng.choice((0, 1, 2, 4, 8))
         for _ in range(n_ops):
             op = rng.choice(("add", "add", "replace", "delete_name", "delete_rrset", "delete_rr", "present_name", "present_rrset", "present_rr", "absent_name", "absent_rrset"))
             owner = lname((GN.simple_label(rng),) + zone) if RN.fits((b"xxxxxxxx",) + zone) else lname(zone)
-            rr = gen_rrset(rng, pool, types, None, False)
+            rr = gen_rrset(rng, pool, types, None, False, rdclass=zclass)
             if rr is None:
                 continue
             if op == "add":
@@ -206,6 +213,7 @@ def wire_view(m, origin=None):
     (owner abs folded, wire class, type, covers, ttl, frozenset(rdata canonical-free wire with abs names))"""
     out = []
     o = origin or m.origin
+    zclass = int(m.zone[0].rdclass) if isinstance(m, dns.update.UpdateMessage) and m.zone else None
     for i, sec in enumerate(m.sections):
         recs = []
         for rr in sec:
@@ -214,7 +222,13 @@ def wire_view(m, origin=None):
             if i == 0:
                 recs.append((tuple(RN.fold(l) for l in owner.labels), wclass, int(rr.rdtype)))
             else:
-                recs.append((tuple(RN.fold(l) for l in owner.labels), wclass, int(rr.rdtype), int(rr.covers), int(rr.ttl) if len(rr) else 0,
+                # class: (class on the wire, class of the data) -- they differ for the delete/prerequisite forms of updates
+                # (the data-less forms built by delete(name)/present(name)/absent(...) spell their class ANY/NONE in the API object
+                # where the parser puts the zone's class: the same record, so the view uses the zone's class for both)
+                dclass = int(rr.rdclass)
+                if zclass is not None and dclass in (254, 255) and len(rr) == 0:
+                    dclass = zclass
+                recs.append((tuple(RN.fold(l) for l in owner.labels), (wclass, dclass), int(rr.rdtype), int(rr.covers), int(rr.ttl) if len(rr) else 0,
                              frozenset(rd.to_wire(origin=o) for rd in rr)))
         out.append(recs)
     return out
